@@ -12,6 +12,7 @@ CONSTANTS
   EnableRevert = TRUE
   EnableInterrupts = TRUE
   FixPruneAtomicFloor = TRUE
+  FixSampleOnReorg = TRUE
 INIT Init
 NEXT Next
 VIEW view
